@@ -82,8 +82,9 @@ def main():
     if a.store:
       dst = os.path.join('/verif/seeded', a.store)
       os.makedirs(dst, exist_ok=True)
-      shutil.copy(patch, dst)
-      shutil.copy(demo, dst)
+      if os.path.abspath(dst) != seed:
+        shutil.copy(patch, dst)
+        shutil.copy(demo, dst)
       meta = {}
       if os.path.exists(os.path.join(seed, 'meta.json')):
         try:
@@ -93,7 +94,13 @@ def main():
       old = {}
       if os.path.exists(os.path.join(dst, 'meta.json')) and os.path.abspath(dst) != seed:
         pass
-      meta.update({'property': a.prop, 'confirmed_by_me': rec['ran'], 'detected': {a.tier: verdict}})
+      prev = meta.get('confirmed_by_me', []) if a.skip_confirm else []
+      hist = meta.get('detection_history', [])
+      if meta.get('detected') and meta['detected'].get(a.tier) not in (None, verdict):
+        hist.append(f"earlier version of the check: {meta['detected']}")
+      meta.update({'property': a.prop, 'confirmed_by_me': prev + rec['ran'], 'detected': {a.tier: verdict}})
+      if hist:
+        meta['detection_history'] = hist
       json.dump(meta, open(os.path.join(dst, 'meta.json'), 'w'), indent=1)
     return 0 if verdict == 'CAUGHT' else 1
   finally:
